@@ -1,6 +1,6 @@
 SPECIFICATION Spec
 CONSTANTS MaxOps = 3
           AnswersLate = FALSE
-          LibraryGivesUp = "never"
+          LibraryGivesUp = "hangsup"
 INVARIANT SessionOfThisLogin
 CHECK_DEADLOCK FALSE
